@@ -456,7 +456,9 @@ pub fn run_observed(bodies: Vec<Body>, prefix: &[usize], observe: &mut dyn FnMut
 /// Every re-execution of a prefix must reproduce the enabled sets and gate labels recorded when the prefix was
 /// first executed ("a prefix replayed must reproduce its recorded observations"). Lock hand-overs inside the code
 /// under test are done by the OS, not by this scheduler, so a replay can occasionally take another path on a
-/// loaded machine: such an execution is discarded and repeated (up to `RETRIES` times, then machinery error);
+/// loaded machine: such an execution is discarded and repeated (up to `RETRIES` times, then machinery error).
+/// For the same reason every accepted execution is run twice with the same choices and must pass through the
+/// same decision points both times (so each reported execution costs two runs of the real code);
 /// the number of discarded executions is the third element of the returned tuple.
 pub fn explore_observed<O>(
     mk: &dyn Fn() -> (Vec<Body>, O),
@@ -494,6 +496,18 @@ pub fn explore_observed<O>(
                             break;
                         }
                     }
+                }
+            }
+            if problem.is_none() {
+                // confirm the part beyond the prefix: the same choices must lead through the same decision points
+                let (bodies2, obs2) = mk();
+                let x2 = run_observed(bodies2, &x.choices(), &mut |k| observe(&obs2, k));
+                let same = x2.diverged.is_none()
+                    && x2.points.len() == x.points.len()
+                    && x2.points.iter().zip(&x.points).all(|(a, b)| a.enabled == b.enabled && a.gates == b.gates && a.chosen == b.chosen)
+                    && x2.deadlock == x.deadlock;
+                if !same {
+                    problem = Some("two executions of the same choices went through different decision points".to_string());
                 }
             }
             match problem {
